@@ -19,6 +19,7 @@ import FastPasta.Model.Cli
 import FastPasta.Proofs.Collector
 import FastPasta.Proofs.ScanCount
 import FastPasta.Proofs.ScanSetOnce
+import FastPasta.Proofs.TrigSrcTie
 namespace FastPasta
 namespace C14
 
@@ -623,6 +624,25 @@ theorem run_error_total (o : Opts) (input : Bytes) (out : Outcome) (h : run o in
   rw [e1, e2, z1, z2]
   simp only [List.filterMap_append, hA, List.nil_append, List.append_nil, List.filterMap_cons, Stat.errOf, List.filterMap_nil, Nat.zero_add]
   exact ⟨trivial, trivial⟩
+
+
+/-! ### tie by translation: the per-bit trigger-type counters are the source's `TriggerStats::collect_stats`
+    (`Spec/TrigSrcGen.lean`, translated from `stats_collector/trigger_stats.rs` on this run) -/
+/-- if the source's 20 named counters hold the model's counts for the bits of `triggerBits` (all below 2^32 − 1), they still do after
+    one more trigger type has been collected by both: which bit each named counter looks at, and the increment by exactly that bit -/
+theorem trigger_counters_src (v : SrcTrig.TriggerStats) (c : Coll) (cap t : Nat)
+    (h : SrcTie.trigCounters v = triggerBits.map c.trig) (hb : ∀ k ∈ triggerBits, c.trig k + 1 < 2^32) :
+    SrcTie.trigCounters (v.collect_stats t).2 = triggerBits.map (Coll.step cap c (.triggerType t)).trig := by
+  rw [SrcTie.collect_stats_eq, h]
+  simp only [Coll.step, triggerBits, List.map_cons, List.map_nil, List.zipWith_cons_cons, List.zipWith_nil_right, List.cons.injEq, and_true]
+  have hk : ∀ k ∈ triggerBits, (c.trig k + t / 2 ^ k % 2) % 2 ^ 32 = c.trig k + t / 2 ^ k % 2 := by
+    intro k hk
+    have := hb k hk
+    have : t / 2 ^ k % 2 < 2 := Nat.mod_lt _ (by omega)
+    exact Nat.mod_eq_of_lt (by omega)
+  simp only [triggerBits, List.mem_cons, List.not_mem_nil, or_false, forall_eq_or_imp, forall_eq] at hk
+  obtain ⟨h0, h1, h2, h3, h4, h5, h6, h7, h8, h9, h10, h11, h12, h13, h14, h27, h28, h29, h30, h31⟩ := hk
+  exact ⟨h0, h1, h2, h3, h4, h5, h6, h7, h8, h9, h10, h11, h12, h13, h14, h27, h28, h29, h30, h31⟩
 
 end C14
 end FastPasta
